@@ -94,6 +94,7 @@ fn edit_strategy() -> BoxedStrategy<Edit> {
         2 => (crate::c02::pos(), crate::c02::valsel()).prop_map(|(pos, val)| Edit::Add { pos, val }),
         3 => (crate::c02::pos(), crate::c02::pos(), crate::c02::valsel()).prop_map(|(a, b, val)| Edit::Move { a, b, val }),
         2 => (crate::c02::pos(), crate::c02::pos(), crate::c02::valsel()).prop_map(|(a, b, val)| Edit::Both { a, b, val }),
+        4 => (crate::c02::pos(), crate::c02::pos(), crate::c02::valsel()).prop_map(|(a, b, t)| Edit::Balanced { a, b, t }),
     ]
     .boxed()
 }
